@@ -126,6 +126,9 @@ fn extra_c09(f: &Factory, case: &MCase, a: &[Out], stats: &mut Stats) -> Vec<Vio
 		if let Some(na) = info.new_apply {
 			cmp("new_apply", guarded(|| na(&case.params, chunk)), stats);
 		}
+		if let (Some(nf), true) = (info.new_fn, k > 0) {
+			cmp("new_fn", guarded(|| nf(&case.params, chunk)), stats);
+		}
 	}
 	// wrappers
 	if case.sut == "WithHistory<SMA>" {
